@@ -387,6 +387,19 @@ func (s *Store) Op(op string, ty TyClass, args ...*Term) *Term {
 		}
 	case "not":
 		return s.Not(args[0])
+	case "len":
+		if len(args) == 1 {
+			a := args[0]
+			if a.Op == "slice" && len(a.Args) == 3 {
+				return a.Args[2] // len(r[off:off+n]) == n
+			}
+			if a.IsNil() {
+				return s.Int(0)
+			}
+			if a.Op == "ite" && (a.Args[1].Op == "slice" || a.Args[1].IsNil()) && (a.Args[2].Op == "slice" || a.Args[2].IsNil()) {
+				return s.Op("ite", TInt, a.Args[0], s.Op("len", TInt, a.Args[1]), s.Op("len", TInt, a.Args[2]))
+			}
+		}
 	case "ite":
 		if b, ok := args[0].BoolVal(); ok {
 			if b {
@@ -414,6 +427,12 @@ func (s *Store) Op(op string, ty TyClass, args ...*Term) *Term {
 		// canonical polarity: condition is never a "not"
 		if args[0].Op == "not" {
 			return s.Op("ite", ty, args[0].Args[0], args[2], args[1])
+		}
+		// ite(a == b, a, b) is b (a helper's `if err != nil { return nil, err }; return v, nil` seen from its caller)
+		if c := args[0]; c.Op == "eq" && len(c.Args) == 2 {
+			if (c.Args[0] == args[1] && c.Args[1] == args[2]) || (c.Args[1] == args[1] && c.Args[0] == args[2]) {
+				return args[2]
+			}
 		}
 		// integer max / min / abs written with a comparison: every spelling (>, >=, swapped branches) selects the
 		// same value, so they get one canonical operator (not so for floats: NaN and signed zeros)
@@ -525,6 +544,12 @@ func (s *Store) Cmp(op string, a, b *Term) *Term {
 		if x == y {
 			return s.True
 		}
+		// errors.New / fmt.Errorf never return nil
+		for _, pr := range [][2]*Term{{x, y}, {y, x}} {
+			if pr[0].IsNil() && (pr[1].Op == "call:errors.New" || pr[1].Op == "call:fmt.Errorf") {
+				return s.False
+			}
+		}
 		// comparison of a selected value with a constant (err == nil after `if c { err = f() }`): select the comparison
 		for _, pr := range [][2]*Term{{x, y}, {y, x}} {
 			if pr[0].Op == "ite" && pr[1].K == KConst {
@@ -566,7 +591,7 @@ func nonNeg(t *Term) bool {
 		return nonNeg(t.Args[0]) || nonNeg(t.Args[1])
 	case t.Op == "len" || t.Op == "max0" || t.Op == "narrow:uint8" || t.Op == "narrow:byte" || t.Op == "narrow:uint16" || t.Op == "narrow:uint32":
 		return true
-	case t.Op == "shr":
+	case t.Op == "shr", t.Op == "shl":
 		return nonNeg(t.Args[0])
 	case t.Op == "call:math/bits.OnesCount8":
 		return true
@@ -607,6 +632,120 @@ func nonNeg(t *Term) bool {
 		return true
 	}
 	return false
+}
+
+// posLoad (set by the equivalence runner) decides loads from read-only literal tables.
+var posLoad func(*Term) bool
+
+// isPos: t >= 1 for every valuation (a doubling stride that starts at 1, a length plus one, ...).
+func isPos(t *Term) bool {
+	if v, ok := t.IntVal(); ok {
+		return v > 0
+	}
+	switch {
+	case t.K == KSym && t.Sym.Attr != nil && t.Sym.Attr["pos"] != nil:
+		return true // a carried variable that starts positive and is only doubled / increased (markMonotoneCounters)
+	case t.Op == "imul":
+		for _, a := range t.Args {
+			if !isPos(a) {
+				return false
+			}
+		}
+		return true
+	case t.Op == "ld" && posLoad != nil:
+		return posLoad(t) // an entry of a read-only literal table all of whose entries are positive
+	case t.Op == "shl":
+		return isPos(t.Args[0]) && nonNeg(t.Args[1])
+	case t.Op == "imax":
+		return isPos(t.Args[0]) || isPos(t.Args[1])
+	case t.Op == "lin":
+		if t.Off.Sign() < 0 {
+			return false
+		}
+		pos := t.Off.Sign() > 0
+		for i, a := range t.Args {
+			if t.Coefs[i].Sign() < 0 || !nonNeg(a) {
+				return false
+			}
+			if t.Coefs[i].Sign() > 0 && isPos(a) {
+				pos = true
+			}
+		}
+		return pos
+	}
+	return false
+}
+
+// divideOut: d = g*q*X + off with g the gcd of the coefficients and q a common factor of every monomial known to be
+// >= 1. Returns X (the monomials divided by g*q) and the offset, ok=false when there is nothing to divide out.
+func (s *Store) divideOut(d *Term) (x *Term, off *big.Int, g *big.Int, q *Term, ok bool) {
+	as, cs, off := linParts(d)
+	if len(as) == 0 {
+		return nil, nil, nil, nil, false
+	}
+	g = new(big.Int)
+	for _, c := range cs {
+		g.GCD(nil, nil, g, new(big.Int).Abs(c))
+	}
+	factors := func(m *Term) []*Term {
+		if m.Op == "imul" {
+			return m.Args
+		}
+		return []*Term{m}
+	}
+	for _, cand := range factors(as[0]) {
+		if !isPos(cand) {
+			continue
+		}
+		all := true
+		for _, m := range as[1:] {
+			has := false
+			for _, f := range factors(m) {
+				if f == cand {
+					has = true
+				}
+			}
+			if !has {
+				all = false
+				break
+			}
+		}
+		if all {
+			q = cand
+			break
+		}
+	}
+	if g.Cmp(big.NewInt(1)) <= 0 && q == nil {
+		return nil, nil, nil, nil, false
+	}
+	if g.Sign() == 0 {
+		return nil, nil, nil, nil, false
+	}
+	x = s.Int(0)
+	for i, m := range as {
+		mm := m
+		if q != nil {
+			var rest []*Term
+			dropped := false
+			for _, f := range factors(m) {
+				if f == q && !dropped {
+					dropped = true
+					continue
+				}
+				rest = append(rest, f)
+			}
+			switch len(rest) {
+			case 0:
+				mm = s.Int(1)
+			case 1:
+				mm = rest[0]
+			default:
+				mm = s.mkOp("imul", TInt, rest...)
+			}
+		}
+		x = s.Add(x, s.MulC(mm, new(big.Int).Quo(cs[i], g)))
+	}
+	return x, off, g, q, true
 }
 
 // liftSel: a comparison of a linear form containing a selection with a constant arm (a helper's `return -1` sentinel)
@@ -654,7 +793,32 @@ func (s *Store) le0(d *Term) *Term {
 			return s.eq0(as[0])
 		}
 	}
-	// normalise by gcd of coefficients when offset allows (keeps i<n and 2i<2n apart; rarely needed) — skip
+	// g*q*X + off <= 0 with g the gcd of the coefficients and q >= 1 a factor common to all monomials: with q absent
+	// it is X <= floor(-off/g), i.e. X + ceil(off/g) <= 0; with q present and off in {0, 1} (after the gcd step) it is
+	// X + off <= 0 (o < s*step over o = i*step, step >= 1, is i < s)
+	if x, off, g, q, ok := s.divideOut(d); ok {
+		no := new(big.Int)
+		m := new(big.Int)
+		no.DivMod(off, g, m) // floor division
+		if m.Sign() != 0 {
+			no.Add(no, big.NewInt(1)) // ceil
+		}
+		if q == nil {
+			return s.le0(s.Add(x, s.linMake(nil, nil, no)))
+		}
+		if no.Sign() == 0 || no.Cmp(big.NewInt(1)) == 0 {
+			return s.le0(s.Add(x, s.linMake(nil, nil, no)))
+		}
+		if g.Cmp(big.NewInt(1)) > 0 {
+			// only the gcd can go
+			xx := s.Int(0)
+			as, cs, _ := linParts(d)
+			for i, a := range as {
+				xx = s.Add(xx, s.MulC(a, new(big.Int).Quo(cs[i], g)))
+			}
+			return s.mkOp("le0", TBool, s.Add(xx, s.linMake(nil, nil, no)))
+		}
+	}
 	return s.mkOp("le0", TBool, d)
 }
 func (s *Store) eq0(d *Term) *Term {
@@ -671,6 +835,20 @@ func (s *Store) eq0(d *Term) *Term {
 	}
 	if r := s.liftSel(d, s.eq0); r != nil {
 		return r
+	}
+	// g*q*X == 0 is X == 0 (g the gcd of the coefficients, q >= 1 a common factor); g*X + off == 0 with g not dividing
+	// off never holds
+	if x, off, g, q, ok := s.divideOut(d); ok {
+		m := new(big.Int).Mod(off, g)
+		if m.Sign() != 0 {
+			return s.False
+		}
+		if off.Sign() == 0 {
+			return s.eq0(x)
+		}
+		if q == nil {
+			return s.eq0(s.Add(x, s.linMake(nil, nil, new(big.Int).Quo(off, g))))
+		}
 	}
 	// sign-normalise: first coefficient positive
 	_, cs, _ := linParts(d)
